@@ -342,6 +342,7 @@ func checkErrFalse(r *Run, prog *Program, a *Anchors, pfx string) {
 	for _, fn := range sortedFuncs(set) {
 		r.Analysed(fn.String())
 		ps := NewPathSim(prog)
+		ps.Havoc = true
 		sums := ps.Run(fn)
 		seen := map[string]bool{}
 		for _, sm := range sums {
